@@ -601,6 +601,10 @@ package stdlibspec
 //@ iface net/http.ResponseWriter.Write(w, b)
 //@   pure
 
-// slices.ContainsFunc with a side-effect-free predicate
+// slices.ContainsFunc with a side-effect-free predicate given as a closure that is under a `pure`
+// contract of its own: the predicate is applied to elements only (so its precondition must hold
+// for every element) and the result says whether some element satisfies it.
 //@ extern slices.ContainsFunc(s, f)
 //@   pure
+//@   requires forall i int :: 0 <= i && i < len(s) ==> callpre(f, s[i])
+//@   ensures result == (exists i int :: 0 <= i && i < len(s) && call(f, s[i]))
